@@ -8,6 +8,7 @@ import ConjureVerif.Props.C10
 import ConjureVerif.Props.C11
 import ConjureVerif.Props.C12
 import ConjureVerif.Props.C13
+import ConjureVerif.Props.C14
 import ConjureVerif.Props.C15
 import ConjureVerif.Props.C16
 import ConjureVerif.Props.C17
